@@ -1055,6 +1055,30 @@ def m_ptr_as_ref(ev, st, args, depth, t):
         yield ("ret", st1, _opt("Some", args[0]))
 
 
+def m_mem_take(ev, st, args, depth, t):
+    """`mem::take(place)`: the old value is returned and the place holds `T::default()` (the crate-local impl is stepped into)."""
+    r = strip(args[0])
+    if isinstance(r, tuple) and r[0] == "ref":
+        root, projs = r[1], tuple(r[2])
+    elif isinstance(r, tuple):
+        root, projs = ("ext", r), ()
+    else:
+        raise Stuck("mem::take on a non-place")
+    old = ev._read(st, root, projs)
+    ty = ((t or {}).get("callee") or {}).get("args", [""])[0]
+    dfn = ev.fns.get("<%s as std::default::Default>::default" % ty)
+    if dfn is None:
+        ev._write(st, root, projs, ("opq", ev.fresh(), ("default", ty)))
+        yield ("ret", st, old)
+        return
+    for kind, st2, v in ev._exec_fn(st, dfn, [], depth + 1):
+        if kind == "ret":
+            ev._write(st2, root, projs, v)
+            yield ("ret", st2, old)
+        else:
+            yield (kind, st2, v)
+
+
 def m_deref(ev, st, args, depth, t):
     # Deref of plain references only (method resolution on &&T); wrappers stay opaque through the generic path
     raise Stuck("deref model")
@@ -1093,6 +1117,7 @@ MODELS = {
     "std::num::NonZero::<T>::new": m_nonzero_new,
     "std::num::NonZero::<T>::get": m_nonzero_get,
     "std::mem::replace": m_mem_replace,
+    "std::mem::take": m_mem_take,
     "std::ptr::const_ptr::<impl *const T>::as_ref": m_ptr_as_ref,
     "std::ptr::mut_ptr::<impl *mut T>::as_ref": m_ptr_as_ref,
     "std::ptr::mut_ptr::<impl *mut T>::as_mut": m_ptr_as_ref,
